@@ -128,9 +128,16 @@ func (ir *ifdReader) discard(n int) (err error) {
 	if int(ir.exifLength) < n+int(ir.po) {
 		n = int(ir.exifLength) - int(ir.po)
 	}
+	if ir.readErr != nil {
+		return ir.readErr
+	}
 	if br, ok := ir.reader.(BufferedReader); ok {
+		backwards := n < 0 // a value that lies behind the reader position: not an error of the reader
 		n, err = br.Discard(n)
 		ir.po += uint32(n)
+		if err != nil && !backwards {
+			ir.readErr = err
+		}
 		return err
 	}
 	var discarded int
@@ -142,6 +149,9 @@ func (ir *ifdReader) discard(n int) (err error) {
 		}
 		ir.po += uint32(discarded)
 		n -= discarded
+	}
+	if err != nil {
+		ir.readErr = err
 	}
 	return err
 }
